@@ -50,7 +50,12 @@ def make_book():
         'My Sheet!B3': put('My Sheet', 3, 2, '=kq*2+SUM(qr)', 'f', 0),
         'Data!B4': put('Data', 4, 2, '=SUM(wide)+COUNT(wide)', 'f', 0), 'Data!D1': put('Data', 1, 4, 1, 'n'), 'Data!D2': put('Data', 2, 4, 2, 'n'),
         'Skip!C1': put('Skip', 1, 3, '=SUM(skr)', 'f', 0),
+        # a formula of a kept sheet that uses a name living on the ignorable sheet (evaluated only when that sheet is kept);
+        # formulas without any reference, whose cached result need not be their value (a stale cache, or a writer that stores 0)
+        'Data!B5': put('Data', 5, 2, '=sk1+A1', 'f', 0),
+        'Data!B6': put('Data', 6, 2, '=2*3+1', 'f', 7), 'Data!B7': put('Data', 7, 2, '=B6*2+ROUND(7/2,0)', 'f', 0),
     }
+    wb.defined_names['sk1'] = DefinedName('sk1', attr_text='Skip!$A$1')
     wb.defined_names['kq'] = DefinedName('kq', attr_text="'My Sheet'!$B$1")
     wb.defined_names['qr'] = DefinedName('qr', attr_text="'My Sheet'!$B$1:$B$2")
     wb.defined_names['wide'] = DefinedName('wide', attr_text='Data!$D$1:$D$6')
@@ -85,6 +90,8 @@ def build(tier, seed):
         CELLS['My Sheet!A1'].cvalue = cached2
         CELLS['My Sheet!B1']._value = k
         CELLS['Skip2!A1']._value = cached
+        CELLS['Data!B6'].cvalue = cached
+        CELLS['Data!B7'].cvalue = k
         return (['Skip'] if ig_skip else []) + (['My Sheet'] if ig_my else [])
 
     def h_cells(a, b, t, cached, cached2, k, ig_skip, ig_my):
@@ -115,7 +122,16 @@ def build(tier, seed):
     def h_eval(a, b, cached, k, ig_skip, ig_my):
         """evaluating the loaded model: formulas, cross-sheet references, names for cells and ranges (also written out directly, over unstored cells, on the quoted sheet)"""
         m = load(setup(a, b, 'x', cached, 6, k, ig_skip, ig_my))
+        # the same workbook loaded again with other sheets ignored (names dropped or kept) must not reach into the first model
+        load((['My Sheet'] if not ig_my else []) + (['Skip'] if not ig_skip else []))
+        # cached results are what get_cell_value shows before evaluation, never what evaluation returns
+        if not (m.get_cell_value('Data!B6') == cached and m.get_cell_value('Data!B7') == k):
+            return False
         ev = Evaluator(m)
+        if not (num_is(ev.evaluate('Data!B6'), 7) and num_is(ev.evaluate('Data!B7'), 18) and num_is(m.get_cell_value('Data!B6'), 7)):
+            return False
+        if not ig_skip and not num_is(ev.evaluate('Data!B5'), 99 + a):
+            return False
         if not (num_is(ev.evaluate('Data!B1'), a + b) and num_is(ev.evaluate('Data!B2'), a + b) and num_is(ev.evaluate('total'), a + b)):
             return False
         if not num_is(ev.evaluate('Data!B3'), 2 * (a + b)):
@@ -165,8 +181,8 @@ def build(tier, seed):
                 return hc, he, hd
             hc, he, hd = mk(ig_s, ig_m)
             label = 'ignore ' + ('+'.join([n for n, f in (('Skip', ig_s), ('My Sheet', ig_m)) if f]) or 'nothing')
-            book = ('4 sheets (Data, "My Sheet", Skip, Skip2 - never ignored, its name extends Skip), 21 stored cells incl. an empty stored cell that is the target of a defined name, names for a cell and a '
-                    'range of the quoted sheet, a named range also written out directly, a named range covering cells that are not stored, a named range on the ignorable sheet; ' + label)
+            book = ('4 sheets (Data, "My Sheet", Skip, Skip2 - never ignored, its name extends Skip), 24 stored cells incl. an empty stored cell that is the target of a defined name, names for a cell and a '
+                    'range of the quoted sheet, a named range also written out directly, a named range covering cells that are not stored, a named range and a named cell on the ignorable sheet (the latter used by a formula of a kept sheet), reference-free formulas with arbitrary cached results; the workbook is loaded a second time with the complementary ignore list before the first model is used; ' + label)
             obs.append(Ob(f'c11.adapter[cells, {label}]', hc,
                           pre=lambda a, b, t, cached, cached2, k: (not isinstance(t, str) or len(t) <= 2) and (not isinstance(cached2, str) or len(cached2) <= 2),
                           witness=[(1, 2, 'x', 3, 6, 5), (4, -4, True, 0, 'ab', 0), (0, 0, 7, 1, False, 1)], timeout=600, cost=60, family='c11.adapter',
